@@ -41,6 +41,7 @@ type Solver struct {
 	emitted   map[int]bool
 	declared  map[string]bool
 	stack     []*Term
+	axLevel   map[int]int // asserted axiom id -> push level
 	pending   bool // a query's push level is still open
 	timeoutMs int
 	stats     *SolverStats
@@ -70,7 +71,7 @@ func NewSolver(kind string, timeoutMs int, stats *SolverStats) *Solver {
 		panic(err)
 	}
 	s := &Solver{kind: kind, cmd: cmd, in: in, out: bufio.NewReaderSize(outp, 1<<20), emitted: map[int]bool{},
-		declared: map[string]bool{}, timeoutMs: timeoutMs, stats: stats}
+		declared: map[string]bool{}, timeoutMs: timeoutMs, stats: stats, axLevel: map[int]int{}}
 	if p := os.Getenv("VX_SMTLOG"); p != "" {
 		s.log, _ = os.Create(fmt.Sprintf("%s.%s.%d.smt2", p, kind, cmd.Process.Pid))
 	}
@@ -191,6 +192,11 @@ func (s *Solver) popPending() {
 	if s.pending {
 		s.send("(pop 1)")
 		s.pending = false
+		for id, lv := range s.axLevel {
+			if lv > len(s.stack) {
+				delete(s.axLevel, id)
+			}
+		}
 	}
 }
 
@@ -204,12 +210,30 @@ func (s *Solver) SetPC(ts *TermStore, pc []*Term) {
 	if n := len(s.stack) - k; n > 0 {
 		s.send(fmt.Sprintf("(pop %d)", n))
 		s.stack = s.stack[:k]
+		for id, lv := range s.axLevel {
+			if lv > k {
+				delete(s.axLevel, id)
+			}
+		}
 	}
 	for _, c := range pc[k:] {
 		s.emit(ts, c)
 		s.send("(push 1)")
 		s.send("(assert " + ref(c) + ")")
 		s.stack = append(s.stack, c)
+		s.assertAxioms(ts, c, len(s.stack))
+	}
+}
+
+// assertAxioms asserts the definitional axioms relevant to c that are not yet active.
+func (s *Solver) assertAxioms(ts *TermStore, c *Term, level int) {
+	for _, a := range ts.Axioms(c) {
+		if _, ok := s.axLevel[a.id]; ok {
+			continue
+		}
+		s.emit(ts, a)
+		s.send("(assert " + ref(a) + ")")
+		s.axLevel[a.id] = level
 	}
 }
 
@@ -224,6 +248,7 @@ func (s *Solver) Check(ts *TermStore, pc []*Term, extra ...*Term) Result {
 	s.pending = true
 	for _, e := range extra {
 		s.send("(assert " + ref(e) + ")")
+		s.assertAxioms(ts, e, len(s.stack)+1)
 	}
 	s.send("(check-sat)")
 	t0 := time.Now()
